@@ -113,6 +113,7 @@ type FieldDiscipline struct {
 	Struct, Field string
 	Allowed       []string
 	Tags          []string
+	WriteOnly     bool
 }
 
 // ReachDiscipline: no function reachable (static call graph of the loaded packages) from the roots
@@ -574,9 +575,11 @@ func (cs *ContractSet) parseFile(file, relDir string) error {
 				unit.ReachDisciplines = append(unit.ReachDisciplines, rd)
 				continue
 			}
-			if unit != nil && strings.HasPrefix(s.rest, "field ") {
+			if unit != nil && (strings.HasPrefix(s.rest, "field ") || strings.HasPrefix(s.rest, "field-write ")) {
 				// discipline field <Struct>.<field> only-in f1, f2, ... tags C06 C14
-				rest := strings.TrimPrefix(s.rest, "field ")
+				// discipline field-write ...: only stores to (or address escapes of) the field are restricted
+				writeOnly := strings.HasPrefix(s.rest, "field-write ")
+				rest := strings.TrimPrefix(strings.TrimPrefix(s.rest, "field-write "), "field ")
 				var tags []string
 				if k := strings.Index(rest, " tags "); k >= 0 {
 					tags = strings.Fields(rest[k+6:])
@@ -593,7 +596,7 @@ func (cs *ContractSet) parseFile(file, relDir string) error {
 						allowed = append(allowed, qualifyKey(a, pkgName))
 					}
 				}
-				unit.FieldDisciplines = append(unit.FieldDisciplines, FieldDiscipline{sf[0], sf[1], allowed, tags})
+				unit.FieldDisciplines = append(unit.FieldDisciplines, FieldDiscipline{sf[0], sf[1], allowed, tags, writeOnly})
 				continue
 			}
 			f := strings.Fields(s.rest)
